@@ -848,6 +848,62 @@ fn sc_c08(seed: u64) -> Vec<Scenario> {
     }]
 }
 
+/// Connections identified as ONC-RPC by a first call, followed by reply-typed records of every
+/// shape the generator knows (plain, with random results, with results that are themselves a bare
+/// or framed call), whole or cut into two or three segments, and a closing call.
+fn sc_c12(seed: u64, thorough: bool) -> Vec<Scenario> {
+    let mut rng = Rng::new(derive(seed, "directed-c12", 0));
+    let key = [rng.u64(), rng.u64()];
+    let c = cfg(Build::Release, LoggerKind::None, 0, key);
+    let mut steps = Vec::new();
+    let n = if thorough { 1500 } else { 300 };
+    for k in 0..n {
+        let fl = if k % 2 == 0 { Flow::v4(33000 + k as u16, 111) } else { Flow::v6(33000 + k as u16, 2049) };
+        let ck = fl.cookie(&key);
+        let ack = ck.wrapping_add(1);
+        let mut seq = 1u32;
+        steps.push(Step::Frame(fl.seg(0, 0, F_SYN, &[])));
+        let first = rpc::gen_call(&mut rng).encode_tcp();
+        steps.push(Step::Frame(fl.seg(seq, ack, F_PSH | F_ACK, &first)));
+        seq = seq.wrapping_add(first.len() as u32);
+        for _ in 0..rng.range(1, 3) {
+            let b = if rng.chance(1, 3) {
+                // SUCCESS reply whose results are a framed call
+                let mut b = rng.u32().to_be_bytes().to_vec();
+                b.extend_from_slice(&[0, 0, 0, 1, 0, 0, 0, 0, 0, 0, 0, 0, 0, 0, 0, 0, 0, 0, 0, 0]);
+                b.extend_from_slice(&rpc::gen_call(&mut rng).encode_tcp());
+                b
+            } else {
+                rpc::gen_reply_msg(&mut rng)
+            };
+            let mut m = (0x8000_0000u32 | b.len() as u32).to_be_bytes().to_vec();
+            m.extend_from_slice(&b);
+            let mut cuts: Vec<usize> = match rng.below(3) {
+                0 => Vec::new(),
+                1 => vec![rng.range(1, m.len() as u64 - 1) as usize],
+                _ => vec![rng.range(1, m.len() as u64 - 1) as usize, rng.range(1, m.len() as u64 - 1) as usize],
+            };
+            cuts.sort();
+            cuts.dedup();
+            let mut prev = 0;
+            for cpos in cuts.iter().chain(std::iter::once(&m.len())) {
+                steps.push(Step::Frame(fl.seg(seq, ack, F_PSH | F_ACK, &m[prev..*cpos])));
+                seq = seq.wrapping_add((*cpos - prev) as u32);
+                prev = *cpos;
+            }
+        }
+        let last = rpc::gen_call(&mut rng).encode_tcp();
+        steps.push(Step::Frame(fl.seg(seq, ack, F_PSH | F_ACK, &last)));
+    }
+    vec![Scenario {
+        name: "rpc-replies-on-identified-connections".into(),
+        cfg: c,
+        start_ms: START,
+        steps,
+        samples: 0,
+    }]
+}
+
 /// Gh0st requests with every value of the two bytes where a client's zlib header sits
 /// (thorough: all 65 536; quick: 0x78 xx and xx 0x9c), over UDP and TCP.
 fn sc_c18(seed: u64, thorough: bool) -> Vec<Scenario> {
@@ -918,7 +974,11 @@ pub fn scenarios(prop: &str, tier: &str, seed: u64) -> Vec<Scenario> {
         "C15" => sc_c15(seed, thorough),
         "C18" => sc_c18(seed, thorough),
         "C10" | "C16" => sc_c10(seed, thorough),
-        "C12" => sc_c05(seed, false),
+        "C12" => {
+            let mut v = sc_c05(seed, false);
+            v.extend(sc_c12(seed, thorough));
+            v
+        }
         "C20" => {
             let mut v = sc_c05(seed, false);
             for s in v.iter_mut() {
